@@ -21,6 +21,19 @@ import (
 // instructions, one PT_LOAD segment covering each section, optionally a data
 // segment (file bytes then zero-filled tail).
 func Exec(prog []rvref.ProgIns, entry uint64, dataAddr uint64, data []byte, bss int) *elfref.Desc {
+	return ExecSegs(prog, entry, []DataSeg{{Addr: dataAddr, Data: data, Bss: bss}})
+}
+
+// DataSeg is one non-executable loadable segment: file bytes, then Bss zeros.
+type DataSeg struct {
+	Addr uint64
+	Data []byte
+	Bss  int
+}
+
+// ExecSegs is Exec with any number of data segments (the caller keeps them
+// disjoint).
+func ExecSegs(prog []rvref.ProgIns, entry uint64, segs []DataSeg) *elfref.Desc {
 	d := &elfref.Desc{Class: 2, Data: 1, Type: 2, Machine: 243, Entry: entry}
 	off := uint64(0x200)
 	var run []byte
@@ -51,9 +64,17 @@ func Exec(prog []rvref.ProgIns, entry uint64, dataAddr uint64, data []byte, bss 
 		run = append(run, byte(pi.Word), byte(pi.Word>>8), byte(pi.Word>>16), byte(pi.Word>>24))
 	}
 	flush()
-	if len(data) > 0 || bss > 0 {
+	for i, sg := range segs {
+		data, bss, dataAddr := sg.Data, sg.Bss, sg.Addr
+		if len(data) == 0 && bss <= 0 {
+			continue
+		}
+		name := ".data"
+		if i > 0 {
+			name = fmt.Sprintf(".data.%d", i)
+		}
 		d.Blobs = append(d.Blobs, elfref.Blob{Off: off, Hex: hex.EncodeToString(data)})
-		d.Secs = append(d.Secs, elfref.Sec{Name: ".data", Type: elfref.SHTProgbits, Flags: elfref.SHFAlloc | elfref.SHFWrite, Addr: dataAddr, Off: off, Size: uint64(len(data))})
+		d.Secs = append(d.Secs, elfref.Sec{Name: name, Type: elfref.SHTProgbits, Flags: elfref.SHFAlloc | elfref.SHFWrite, Addr: dataAddr, Off: off, Size: uint64(len(data))})
 		d.Progs = append(d.Progs, elfref.Prog{Type: elfref.PTLoad, Flags: 6, Off: off, Vaddr: dataAddr, Filesz: uint64(len(data)), Memsz: uint64(len(data) + bss)})
 		off += uint64(len(data)) + 16
 	}
